@@ -173,6 +173,10 @@ type Inputs struct {
 	Data    map[string]map[string]core.V `json:"data"`
 	IJ      core.V                       `json:"ij"`
 	ExprSrc string                       `json:"expr"`
+	// Shared: named map values that are ONE object: every data set that has a
+	// map under such a name gets that same data.Map (a nested map shared by
+	// different top-level maps).
+	Shared map[string]core.V `json:"shared,omitempty"`
 }
 
 // NewInstance compiles the files and builds the caller's values afresh.
@@ -184,6 +188,19 @@ func NewInstance(in *Inputs) (*Instance, error) {
 	inst := &Instance{Comp: comp, Data: map[string]data.Map{}}
 	for k, m := range in.Data {
 		inst.Data[k] = core.ToDataMap(m)
+	}
+	var sharedNames []string
+	for name := range in.Shared {
+		sharedNames = append(sharedNames, name)
+	}
+	sort.Strings(sharedNames)
+	for _, name := range sharedNames {
+		obj := core.ToData(in.Shared[name])
+		for _, m := range inst.Data {
+			if cur, ok := m[name]; ok && reflect.TypeOf(cur) == reflect.TypeOf(obj) {
+				m[name] = obj
+			}
+		}
 	}
 	if in.IJ != nil && in.IJ["t"] == "map" {
 		inst.IJ = core.ToDataMap(in.IJ["v"])
